@@ -37,6 +37,24 @@ type vfC04Row struct {
 
 type vfC04Case struct {
 	Rows []vfC04Row `json:"rows"`
+	// Style: how the markings are spelled. 0: every marked case by its full name; 1: the first marked case
+	// of a list by its full name, the others as Suite/*/case-N (a literal and a wildcard branch at the same
+	// level); 2: all as **/case-N next to a literal pattern for a case that is not in the run.
+	Style int `json:"style,omitempty"`
+}
+
+func vfC04Pattern(style, i, nth int) []string {
+	switch {
+	case style == 1 && nth > 0:
+		return []string{fmt.Sprintf("Suite/*/case-%d", i)}
+	case style == 2:
+		pats := []string{fmt.Sprintf("**/case-%d", i)}
+		if nth == 0 {
+			pats = append(pats, "Suite/verif-c04/case-99")
+		}
+		return pats
+	}
+	return []string{vfC04Name(i)}
 }
 
 var vfC04Kinds = []string{"pass", "assert-fail", "client-error", "setup", "could-not-run", "no-result", "unanswered"}
@@ -93,9 +111,9 @@ func vfC04Check(c vfC04Case) error {
 	for i, r := range c.Rows {
 		switch r.Marking {
 		case "failing":
-			failing = append(failing, vfC04Name(i))
+			failing = append(failing, vfC04Pattern(c.Style, i, len(failing))...)
 		case "flaky":
-			flaky = append(flaky, vfC04Name(i))
+			flaky = append(flaky, vfC04Pattern(c.Style, i, len(flaky))...)
 		}
 	}
 	results := newResults(len(c.Rows), vfTrieOrEmpty(failing), vfTrieOrEmpty(flaky), nil)
@@ -195,7 +213,7 @@ func vfC04Classify(c vfC04Case) ([]string, bool) {
 		}
 	}
 	ok, _ := vfC04Model(c)
-	return []string{fmt.Sprintf("success:%v", ok), fmt.Sprintf("cases:%d", len(c.Rows))}, nt
+	return []string{fmt.Sprintf("success:%v", ok), fmt.Sprintf("cases:%d", len(c.Rows)), fmt.Sprintf("marking-style:%d", c.Style)}, nt
 }
 
 func vfAllRows() []vfC04Row {
@@ -235,7 +253,7 @@ func TestVerifC04Table(t *testing.T) {
 		if len(prefix) > 0 {
 			idx++
 			if idx%shards == shard {
-				c := vfC04Case{Rows: append([]vfC04Row{}, prefix...)}
+				c := vfC04Case{Rows: append([]vfC04Row{}, prefix...), Style: (idx / shards) % 3}
 				err := verifkit.SafeCall(func() error { return vfC04Check(c) })
 				cl, nt := vfC04Classify(c)
 				en.Rec.ObserveHash(uint64(idx), strings.Join(cl, "+"), nt)
@@ -277,6 +295,7 @@ func TestVerifC04Random(t *testing.T) {
 					c.Rows = append(c.Rows, rapid.SampledFrom(rows).Draw(t, "row"))
 				}
 			}
+			c.Style = rapid.IntRange(0, 2).Draw(t, "style")
 			return c
 		},
 		Check:    vfC04Check,
